@@ -41,6 +41,13 @@ def run(ctx):
             built.append(("payload", key, mode, p))
         cmds.append("CONSTRUCT %s %s %d 1 NONE" % (key[0:1].hex(), key[1:2].hex(), mode))
         built.append(("none", key, mode, None))
+        # a raw payload AND attribute keywords in one call (implementation only: whatever the constructor makes of
+        # the combination, what it returns must serialize to a well-formed frame)
+        if nm:
+            g = msggen.Gen(rng, d, mode, name, key, 1, "random")
+            for an in nm[:2]:
+                for v in rng.sample(sweep.POOL, 2):
+                    built.append(("payload+kw", key, mode, g.payload(), {**base, an: v}))
     # long raw payloads (NAV-POSLLH followed by surplus bytes, stored verbatim); lengths around 4096, 8192, ..., the 16-bit limit
     for body in gen.long_bodies(rng, ctx.quick()):
         cmds.append("CONSTRUCT 01 02 0 1 PAYLOAD %s" % gen.hx(body))
@@ -167,6 +174,9 @@ def make(b):
     if kind == "payload":
         _, key, mode, p = b
         return UBXMessage(key[0:1], key[1:2], mode, payload=p)
+    if kind == "payload+kw":
+        _, key, mode, p, kw = b
+        return UBXMessage(key[0:1], key[1:2], mode, payload=p, **kw)
     if kind == "none":
         _, key, mode, _p = b
         return UBXMessage(key[0:1], key[1:2], mode)
